@@ -68,8 +68,9 @@ ok = res.get("demo_pristine_exit") == 0 and res.get("demo_patched_exit") not in 
 res["confirmed"] = ok
 print("CONFIRMED" if ok else "NOT CONFIRMED")
 
-# run the checks against it
-st = subprocess.check_output(["git", "-C", "/repo", "status", "--porcelain", "--untracked-files=no"], text=True).strip()
+# run the checks against it (SEED_NOCHECK=1: leave /repo alone; tools/seed_recheck.py fills `detected_by` later)
+NOCHECK = bool(os.environ.get("SEED_NOCHECK"))
+st = "" if NOCHECK else subprocess.check_output(["git", "-C", "/repo", "status", "--porcelain", "--untracked-files=no"], text=True).strip()
 if st:
     print("/repo not clean:", st)
     sys.exit(2)
@@ -78,6 +79,8 @@ skip = set(os.environ.get("SEED_SKIP", "").split())
 claimed = [c for c in claimed if c not in skip or c == ID]
 det = {}
 try:
+    if NOCHECK:
+        raise StopIteration
     r = subprocess.run(["git", "-C", "/repo", "apply", os.path.join(out, "patch.diff")], capture_output=True, text=True)
     if r.returncode != 0:
         print("patch does not apply to /repo:", r.stderr)
@@ -98,8 +101,11 @@ try:
             print("== %s exit=%d" % (p, rc))
             for l in lines[:6]:
                 print("    ", l[:400])
+except StopIteration:
+    pass
 finally:
-    subprocess.run(["git", "-C", "/repo", "checkout", "--", "."])
+    if not NOCHECK:
+        subprocess.run(["git", "-C", "/repo", "checkout", "--", "."])
 res["detected_by"] = det
 print("DETECTED by", sorted(det) or "NOTHING")
 
